@@ -16,7 +16,7 @@ TECHNIQUE = "Hypothesis rule-based state machine over construct / clone / set_pa
 ASSUMPTIONS = [
     "shared scorer instances are shared between detectors only (the property names sharing one cost object between several detectors)",
     "set_params updates are generated so that the resulting configuration is valid (checked by a trial construction); set_params resets the fitted state (sktime semantics), which the model mirrors",
-    "update uses pandas data whose index continues the training index; the reference is fit on new.combine_first(old)",
+    "update uses pandas data whose index continues the training index or repeats its last 1-2 labels (the new rows win); the reference is fit on new.combine_first(old)",
     "outputs are compared at 1e-12 relative; exceptions must have the same class in the real and in the history-free execution",
     "change / local-anomaly detectors whose cost has a fixed parameter have identically zero scores (additive cost): their detections are rounding noise, so only threshold and scores are compared (1e-9 x scale)",
 ]
@@ -90,8 +90,12 @@ class Interpreter:
         self.data = []
         self.pristine = []
         off = 0
-        for X in datasets:
+        for i, X in enumerate(datasets):
             arr = np.asarray(X, dtype=float)
+            # a new chunk may repeat the last 0..2 index labels of the previous one (update = combine_first:
+            # the new values win on shared labels); the overlap is a deterministic function of the position
+            overlap = min((0, 1, 0, 2, 1)[i % 5], len(arr) - 1, off)
+            off -= overlap
             df = pd.DataFrame(arr, index=pd.RangeIndex(off, off + len(arr)), columns=[f"c{j}" for j in range(arr.shape[1])])
             off += len(arr)
             self.data.append(df)
